@@ -83,7 +83,10 @@ fn gen_witness(t: &mut Tape, tag: usize) -> RefWitness {
     let input_names: Vec<String> =
         (0..n_inputs).map(|k| format!("{}_in{}_{}", NAMES[t.below(NAMES.len() as u32) as usize], k, tag)).collect();
     let widths: Vec<u32> = (0..n_inputs).map(|_| pick_width(t)).collect();
-    let steps = 1 + t.below(6);
+    // a property that already fails in the initial state gives a witness with a state frame and no
+    // input frame at all (zero steps); without states there is always at least one step
+    let steps = if !init.is_empty() && t.chance(28) { 0 } else { 1 + t.below(6) };
+    let (input_names, widths) = if steps == 0 { (vec![], vec![]) } else { (input_names, widths) };
     let inputs: Vec<Vec<Bv>> =
         (0..steps).map(|_| widths.iter().map(|w| Bv::new(*w, t.bits(*w))).collect()).collect();
     RefWitness { failed, init, input_names, inputs }
@@ -193,7 +196,7 @@ impl Prop for C16 {
         Some("tape")
     }
     fn rule(&self) -> String {
-        "complete witnesses: 1-3 failed property indices, 0-6 states (bit-vectors of 1-200 bits; arrays with index width 1-64, 1-6 recorded indices incl. duplicates and zero entries, sparse and dense storage), 0-5 inputs, 1-6 steps with a value for every input, names without whitespace/;/@/# (the format's delimiters); streams of 1-5 witnesses. witness_to_string -> parse_witness / parse_witnesses(n') for n' below, at and above the number written: same failed indices, names, bit-vector values, sorted de-duplicated index lists and array contents at every recorded index; order preserved; prefix semantics for n' < n. Shapes the printer cannot express (no failed property, array without recorded index, array-typed inputs (documented todo), index width > 64 (baa limitation)) are excluded by construction. Non-trivial: witness with an array state of >= 2 recorded indices or a stream of >= 2 witnesses; distinct by hash of the text.".into()
+        "complete witnesses: 1-3 failed property indices, 0-6 states (bit-vectors of 1-200 bits; arrays with index width 1-64, 1-6 recorded indices incl. duplicates and zero entries, sparse and dense storage), 0-5 inputs, 0-6 steps (zero only with a state frame and then without inputs) with a value for every input, names without whitespace/;/@/# (the format's delimiters); streams of 1-5 witnesses. witness_to_string -> parse_witness / parse_witnesses(n') for n' below, at and above the number written: same failed indices, names, bit-vector values, sorted de-duplicated index lists and array contents at every recorded index; order preserved; prefix semantics for n' < n. Shapes the printer cannot express (no failed property, array without recorded index, array-typed inputs (documented todo), index width > 64 (baa limitation)) are excluded by construction. Non-trivial: witness with an array state of >= 2 recorded indices or a stream of >= 2 witnesses; distinct by hash of the text.".into()
     }
     fn budget(&self, tier: Tier) -> Budget {
         match tier {
